@@ -27,7 +27,7 @@ func vUDPServer(r *router) (*udpServer, *[]vDatagram) {
 // them. Every response goes to its own client and carries the answer produced for its own question.
 func VerifH_C04_UDPConcurrent() {
 	verifrt.Unwind(400)
-	verifrt.SchedBound(2)
+	verifrt.SchedBound(2 + verifrt.Tier) // thorough: one more deviation from the default schedule
 	verifrt.CtxNoExpiry = true
 	up := &vKeyedUpstream{}
 	r := vRouter([]*rule{{upstream: &upstreamWrapper{tag: "up", u: up}}}, verifrt.Bool("cache"))
